@@ -7,6 +7,7 @@ import (
 	"crypto/ed25519"
 	"encoding/json"
 
+	"github.com/lidofinance/dc4bc/client/types"
 	"github.com/lidofinance/dc4bc/fsm/state_machines"
 	fsmtypes "github.com/lidofinance/dc4bc/fsm/types"
 	"github.com/lidofinance/dc4bc/internal/vf"
@@ -47,6 +48,27 @@ func VF_NodeMessage() {
 		args = nil
 		data, _ = json.Marshal([]fsmtypes.ReconstructedSignature{{File: "f", BatchID: vf.Str("rs.batch"), MessageID: vf.Str("rs.msgid"),
 			SrcPayload: vf.Bytes("rs.payload", 1), Signature: vf.Bytes("rs.sig", 1), Username: vf.Str("rs.user"), DKGRoundID: vf.Str("rs.round")}})
+	} else if dataEv == vfEvReinit {
+		// the reinitialisation message: round id inside the payload independent of the one on the envelope, no inner
+		// messages (their replay is the ordinary message path, covered by the other events), one re-keyed participant
+		// Param inner: the event of one inner message (the log being replayed), addressed to a live round or to the new one,
+		// with an arbitrary signature (inner messages are replayed without verification).
+		args = nil
+		reID := []string{"round", "other", "unseen", ""}[vf.Choose("reinit.dkgid", 4)]
+		var inner []storage.Message
+		if iev := vf.Param("inner"); iev != "" {
+			iargs := state_machines.VFRequest(iev, 0)
+			var idata []byte
+			if len(iargs) == 1 {
+				idata, _ = json.Marshal(iargs[0])
+			}
+			iround := []string{"round", reID}[vf.Choose("reinit.inner.round", 2)]
+			inner = append(inner, storage.Message{ID: "inner", DkgRoundID: iround, Event: iev, Data: idata,
+				Signature: vf.OpaqueBytes("inner.sig"), SenderAddr: state_machines.VFUser(1)})
+		}
+		data, _ = json.Marshal(types.ReDKG{DKGID: reID, Threshold: vf.Int("reinit.threshold"),
+			Participants: []types.Participant{{DKGPubKey: vf.Bytes("reinit.dkgkey", 1), OldCommPubKey: vf.Bytes("reinit.oldkey", 1),
+				NewCommPubKey: vf.Bytes("reinit.newkey", 1), Name: state_machines.VFUser(0)}}, Messages: inner})
 	} else if dataEv == "signature_reconstruction_failed" {
 		args = state_machines.VFRequest("event_signing_partial_sign_error_received", 0)
 		data, _ = json.Marshal(args[0])
@@ -54,6 +76,9 @@ func VF_NodeMessage() {
 		data, _ = json.Marshal(args[0])
 	}
 	senderKind := vf.Choose("sender", n+2) // 0..n-1: participants, n: stranger, n+1: empty
+	if vf.Param("inner") != "" && senderKind != 0 {
+		vf.Stop() // the envelope's sender plays no role for the reinitialisation message (explored without inner messages)
+	}
 	sender := ""
 	if senderKind < n {
 		sender = state_machines.VFUser(senderKind)
@@ -72,11 +97,11 @@ func VF_NodeMessage() {
 	} else {
 		sig = vf.OpaqueBytes("msg.sig")
 	}
-	roundKind := vf.Choose("round", 3)
+	roundKind := vf.Choose("round", 4)
 	if roundKind != 0 && senderKind != 0 {
 		vf.Stop() // other / unseen round ids are explored with one sender only (bound, stated in the evidence)
 	}
-	roundID := []string{"round", "other", "unseen"}[roundKind]
+	roundID := []string{"round", "other", "unseen", ""}[roundKind]
 	msg := storage.Message{ID: "id", DkgRoundID: roundID, Event: ev, Data: data, Signature: sig, SenderAddr: sender}
 
 	pre := vfTake(e, rounds)
@@ -98,11 +123,18 @@ func VF_NodeMessage() {
 		// C09
 		vf.Assert("unverified-noop", vf.Implies(!verified, vf.And(perr != nil, same)))
 	}
-	if ev == vfEvInit && abs[:6] != "__idle" && roundKind != 2 {
+	if ev == vfEvInit && abs[:6] != "__idle" && roundKind < 2 {
 		// the opening proposal is exempt from the signature gate by the statement; on a live round it must have no effect
 		vf.Assert("init-on-live-round-noop", same)
 	}
 	vf.Assert("skipflag-restored", !e.node.SkipCommKeysVerification)
+	if ev == vfEvReinit {
+		// C10: the reinitialisation message is exempt from the signature gate because it only CREATES a round (confirmed out
+		// of band by hash); whatever it carries, the rounds that already exist keep every participant's status and data
+		for _, id := range rounds {
+			vf.Assert("reinit-leaves-live-rounds-untouched", vf.And(vf.BytesEq(pre.rounds[id], post.rounds[id]), vf.BytesEq(pre.sigs[id], post.sigs[id])))
+		}
+	}
 
 	// C08: a message for one round leaves every other round untouched
 	for _, id := range rounds {
@@ -113,7 +145,7 @@ func VF_NodeMessage() {
 
 	// C18: rejected input is a durable no-op (everything except the offset)
 	if perr != nil {
-		if roundKind == 2 {
+		if roundKind >= 2 {
 			vf.Assert("rejected-durable-noop:unseen-round-id", vf.And(same, vf.BytesEq(preAll, postAll)))
 		} else {
 			vf.Assert("rejected-durable-noop:existing-round", vf.And(same, vf.BytesEq(preAll, postAll)))
